@@ -156,8 +156,8 @@ func (g *group) close() {
 }
 
 func toModes(s []string) ([]fakeprom.Mode, error) {
-	if len(s) == 0 || len(s) > 3 {
-		return nil, fmt.Errorf("%w: need 1-3 upstreams", errInconclusive)
+	if len(s) == 0 || len(s) > 6 {
+		return nil, fmt.Errorf("%w: need 1-6 upstreams", errInconclusive)
 	}
 	out := make([]fakeprom.Mode, len(s))
 	for i, x := range s {
@@ -1082,7 +1082,8 @@ func drawMode(t *rapid.T, name, label string) string {
 func genFailover(t *rapid.T) Case {
 	c := Case{Kind: "failover"}
 	c.Endpoint = rapid.SampledFrom(fakeprom.Endpoints).Draw(t, "endpoint")
-	n := rapid.SampledFrom([]int{1, 2, 2, 3, 3, 3}).Draw(t, "upstreams")
+	// uri + 0-5 failover URIs (discovery can merge even more)
+	n := rapid.SampledFrom([]int{1, 2, 2, 3, 3, 3, 4, 4, 5, 6}).Draw(t, "upstreams")
 	// the timeout mode costs a second per contact: drawn less often in the quick tier, never twice in a row
 	pool := modeNames()
 	weighted := append(append([]string{"5xx*", "5xx*", "5xx*", "4xx*", "4xx*"}, pool...), pool...)
@@ -1130,7 +1131,7 @@ var scripts = [][]string{
 
 func genSequence(t *rapid.T) Case {
 	c := Case{Kind: "sequence"}
-	n := rapid.SampledFrom([]int{1, 2, 2, 3, 3}).Draw(t, "upstreams")
+	n := rapid.SampledFrom([]int{1, 2, 2, 3, 3, 4, 5}).Draw(t, "upstreams")
 	np := rapid.IntRange(2, 4).Draw(t, "phases")
 	endpoint := rapid.SampledFrom(fakeprom.Endpoints).Draw(t, "endpoint")
 	slices := 0
@@ -1267,7 +1268,7 @@ func genChecks(t *rapid.T) Case {
 	} else {
 		c.Check = checkSpecs[ci].name
 	}
-	n := rapid.IntRange(1, 3).Draw(t, "upstreams")
+	n := rapid.SampledFrom([]int{1, 2, 3, 1, 2, 3, 4, 5}).Draw(t, "upstreams")
 	for i := 0; i < n; i++ {
 		// timeout is rare here: an outage of n timing-out upstreams costs n seconds per API call of the check
 		m := rapid.SampledFrom([]string{"refused", "500", "503", "server_error", "refused", "5xx*", "5xx*", "5xx*", "5xx*", "refused", "503", "timeout"}).Draw(t, fmt.Sprintf("mode%d", i))
@@ -1438,6 +1439,26 @@ func TestFaultTable(t *testing.T) {
 				} else {
 					cells = append(cells, Case{Kind: "failover", Endpoint: ep, Modes: tp, Required: req})
 				}
+			}
+		}
+	}
+	// longer failover lists (uri + 3-5 failovers): every unavailability kind in front of a healthy last upstream
+	for _, ep := range fakeprom.Endpoints {
+		sl := 0
+		if ep == "query_range" {
+			sl = 1
+		}
+		for n := 4; n <= 6; n++ {
+			for _, u := range []string{"refused", "500", "503", "server_error", "http:521:html"} {
+				modes := make([]string, n)
+				for i := range modes {
+					modes[i] = u
+				}
+				modes[n-1] = "healthy"
+				cells = append(cells, Case{Kind: "failover", Endpoint: ep, Modes: modes, Slices: sl})
+				modes2 := append([]string(nil), modes...)
+				modes2[n-2] = "bad_data" // and a query-caused error right before it: the healthy one must NOT be asked
+				cells = append(cells, Case{Kind: "failover", Endpoint: ep, Modes: modes2, Required: true, Slices: sl})
 			}
 		}
 	}
